@@ -281,3 +281,62 @@ def checker(ctx, world):
                 good_shape = good_shape and got is (va or vr)
     ok = good_shape and all(0 < t_ <= 1e-4 for t_ in tols)
     _ok(ctx, "A18.tol", "scalar_close: |a-b| < TOL or |a-b|/|a+b| < RTOL with 0 < TOL, RTOL <= 1e-4", ok, loc, f"{TU}.scalar_close", f"scalar_close is not the absolute-or-relative test with small positive tolerances (found tolerances {tols})", "a rule wrong by a relative 1e-3 (test_tests plants 2.001 and 1.001): accepted when a tolerance is loose, and correct rules rejected when a tolerance is <= 0")
+
+
+RNG_STATE_CALLS = {
+    "numpy.random.seed", "numpy.random.set_state", "numpy.random.RandomState", "numpy.random.default_rng", "numpy.random.Generator",
+    "numpy.random.SeedSequence", "random.seed", "random.setstate", "random.Random",
+}
+
+
+def rng_independence(ctx, world):
+    """A18.rng - the checker's random probes are independent draws from one running stream: nothing inside autograd/
+    re-seeds, restores or replaces the generator state (a re-seeded stream hands out THE SAME vector for every probe of
+    the same shape: check_vjp then only compares <v, J v> for one fixed v, and is blind to every error that is
+    antisymmetric - a transposed rule - and no longer random at all)."""
+    import ast
+
+    from ..model import norm_text
+
+    ctx.describe("A18.rng", "no code under autograd/ seeds, restores or replaces a random generator state (numpy.random.seed / set_state / RandomState(..) / default_rng(..), random.seed ..): the probes vs.randn() of check_vjp / check_jvp / check_equivalent are successive draws of one running stream, hence distinct and independent of each other")
+    n = 0
+
+    def dotted(e):
+        parts = []
+        while isinstance(e, ast.Attribute):
+            parts.append(e.attr)
+            e = e.value
+        if not isinstance(e, ast.Name):
+            return None, None
+        return e.id, list(reversed(parts))
+
+    for mod in world.repo.mods.values():
+        # imports anywhere in the module (also function-local ones)
+        alias = {}
+        for y in ast.walk(mod.tree):
+            if isinstance(y, ast.Import):
+                for a in y.names:
+                    alias[a.asname or a.name.split(".")[0]] = a.name if a.asname else a.name.split(".")[0]
+            elif isinstance(y, ast.ImportFrom) and y.module and not y.level:
+                for a in y.names:
+                    alias[a.asname or a.name] = f"{y.module}.{a.name}"
+        for x in ast.walk(mod.tree):
+            if not (isinstance(x, ast.Call) and isinstance(x.func, (ast.Name, ast.Attribute))):
+                continue
+            r = world.repo.resolve_expr(mod, x.func)
+            q = getattr(r, "qual", None)
+            if q is None or r.kind not in ("ext", "wrapped", "module"):
+                root, parts = dotted(x.func)
+                if root in alias:
+                    q = ".".join([alias[root]] + parts)
+            if q is not None and q.startswith("autograd.numpy.numpy_wrapper.random"):
+                q = "numpy." + q.split("numpy_wrapper.", 1)[1]
+            if q is None or not (q.startswith("numpy.random.") or q.startswith("random.")):
+                continue
+            n += 1
+            inst = f"{mod.name}:{norm_text(x)[:60]}"
+            if q in RNG_STATE_CALLS:
+                ctx.fail("A18.rng", inst, f"rng:{mod.name}|{q}", loc_of(mod, x), f"`{norm_text(x)[:70]}` sets / replaces the random generator state inside the library: draws made after it repeat", "check_grads on a square linear map with a transposed rule (f(x) = A x with VJP A g): with identical probes for the input and output space only the symmetric part of the Jacobian is compared")
+            else:
+                ctx.ob("A18.rng", inst, True, loc_of(mod, x))
+    ctx.floor("A18.rng random draws found in autograd/", n, 1)
